@@ -8,6 +8,8 @@ other fields hex), pattern lists `,`-joined (`-` empty), names `space:loc` (hex)
     route <stanzaNS> <name> <patterns>            -> h=<pattern> | router | nop
     children <k> <typ> <patterns> <toks> <cons>   -> `/`-joined <pattern>=<toks read> of the registered handlers that ran
     iqdefault <typ> <name> <patterns>             -> h=<pattern> | fallback | nothing
+    hist <stanzaNS> <op,op,…>                     -> `;`-joined results; op = R<pattern> | R!<pattern> (nil handler) |
+                                                     L<pattern as query> | D<name>
     register <patterns> <pattern> <nil>           -> ok | panic
 -/
 namespace XmppModel.Driver.C14
@@ -44,6 +46,18 @@ def decNats (s : String) : Option (List Nat) :=
 
 def field (s : String) : Option String := unhexF (if s == "-" then "" else s)
 
+def decHOp (s : String) : Option HOp :=
+  if s.startsWith "R!" then (decPattern (s.drop 2).toString).map fun p => .reg p true
+  else if s.startsWith "R" then (decPattern (s.drop 1).toString).map fun p => .reg p false
+  else if s.startsWith "L" then (decPattern (s.drop 1).toString).map fun p => .look p.kind p.typ p.name
+  else if s.startsWith "D" then (decName (s.drop 1).toString).map .disp
+  else none
+
+def encHRes : HRes → String
+  | .regOk => "ok" | .regPanic => "panic"
+  | .found p => "h=" ++ encPattern p | .notFound => "none"
+  | .router => "router" | .nop => "nop"
+
 def handle (args : List String) : Option String :=
   match args with
   | ["lookup", k, typ, n, pats] => do
@@ -67,6 +81,10 @@ def handle (args : List String) : Option String :=
       | .handler p => "h=" ++ encPattern p
       | .fallback => "fallback"
       | .nothing => "nothing")
+  | ["hist", ns, ops] => do
+    let ns ← field ns
+    let ops ← if ops == "-" then some [] else mapM? decHOp (ops.splitOn ",")
+    pure (joinList ((runHist ns [] ops).map encHRes) ";")
   | ["register", pats, p, nl] => do
     let pats ← decPatterns pats; let p ← decPattern p; let nl ← parseBool nl
     pure (match register pats p nl with | some _ => "ok" | none => "panic")
